@@ -251,8 +251,9 @@ impl<D: DataRef> VecZnx<D> {
             "from_data: buffer of {} bytes too small for n={n} cols={cols} size={size}",
             data.as_ref().len()
         );
+        // an empty buffer (empty shape) has a dangling pointer that is never dereferenced
         assert!(
-            (data.as_ref().as_ptr() as usize).is_multiple_of(align_of::<i64>()),
+            data.as_ref().is_empty() || (data.as_ref().as_ptr() as usize).is_multiple_of(align_of::<i64>()),
             "from_data: buffer not aligned for i64"
         );
         Self {
